@@ -1,0 +1,25 @@
+//go:build verif
+
+package stackage
+
+import (
+	"sync/atomic"
+	"unsafe"
+)
+
+var verifPointFn atomic.Value // func(ev string, id uintptr)
+
+// VerifSetPoint installs (or, with nil, removes) the callback invoked at the
+// lock acquisition points of a mutex-enabled Stack.
+func VerifSetPoint(f func(ev string, id uintptr)) {
+	if f == nil {
+		f = func(string, uintptr) {}
+	}
+	verifPointFn.Store(f)
+}
+
+func verifPoint(ev string, r *stack) {
+	if f, ok := verifPointFn.Load().(func(string, uintptr)); ok && f != nil {
+		f(ev, uintptr(unsafe.Pointer(r)))
+	}
+}
